@@ -108,11 +108,19 @@ def pure_menu(k):
         ('hex_to_u64', 'hex_to_u64', ('%x' % c7,), False),
         ('cell_to_boundary:auto', 'cell_to_boundary', (a_parent(c7),), True),
         ('cell_to_boundary:open', 'cell_to_boundary', (c7, {'closed_ring': False, 'segments': 3}), True),
+        ('cell_to_boundary:default_r7', 'cell_to_boundary', (c7,), False),
+        ('cell_to_boundary:empty_options_r9', 'cell_to_boundary', (rm_child(c7), {}), False),
+        ('cell_to_boundary:only_closed_r7', 'cell_to_boundary', (c7, {'closed_ring': False}), False),
         ('cell_to_lonlat:world', 'cell_to_lonlat', (0,), False),
         ('cell_to_boundary:world', 'cell_to_boundary', (0,), True),
         ('lonlat_to_cell:pole', 'lonlat_to_cell', ((0.0, 90.0), 8), False),
         ('lonlat_to_cell:far', 'lonlat_to_cell', ((539.0, -33.0), 6), False),
     ]
+
+
+def rm_child(c7):
+    from vf import refmodel as rm
+    return rm.encode(rm.decode(c7) + (2, 1))
 
 
 def a_parent(c7):
@@ -232,7 +240,7 @@ def run(tier, t0):
     sub = [ev for ev in menu2 if ev[0].split(':')[0] in ('lonlat_to_cell', 'cell_to_boundary')
            and any(t in ev[0] for t in ('f00t0', 'f00t9', 'f01t0', 'f01t9', 'f11t0', 'f11t9', 'f06t4'))]
     sub = sub[:24 if tier == 'quick' else 40] + pure_menu(k)[:3]
-    sub += [ev for ev in menu2 if ev[0].startswith('cell_to_children:quad') or ev[0].startswith('error:') or ev[0].startswith('uncompact')]
+    sub += [ev for ev in menu2 if ev[0].startswith('cell_to_children:quad') or ev[0].startswith('error:') or ev[0].startswith('uncompact') or ev[0].startswith('cell_to_boundary:default') or ev[0].startswith('cell_to_boundary:empty') or ev[0].startswith('cell_to_boundary:only')]
     sub += [ev for ev in menu2 if ev[0].startswith('low:') and 'f00t1' in ev[0]]
     subnames = {ev[0] for ev in sub}
     lvl1_hist = [[n] for n in sorted({v[0] for v in seen.values() if len(v) == 1})]
